@@ -80,9 +80,13 @@ def instances(tier, seed):
     for a in range(len(HOOKSETS)):
         for b in range(len(HOOKSETS)):
             g = "core" if (tier == "thorough" or rng.random() < 0.5) else "ext"
-            out.append((g, dict(kind="seq", hookA=a, hookB=b, ckA=rng.randrange(3), ckB=rng.randrange(3), nops=n)))
+            ca, cb = rng.randrange(3), rng.randrange(3)
+            out.append((g, dict(kind="seq", hookA=a, hookB=b, ckA=ca, ckB=cb, nops=5)))
+            if tier == "thorough":
+                # the longer template (re-install + third import) runs as far as the budget allows
+                out.append(("ext", dict(kind="seq", hookA=a, hookB=b, ckA=ca, ckB=cb, nops=6)))
     for a in range(len(HOOKSETS) - 1):
-        out.append(("core", dict(kind="seq", hookA=a, hookB=a, ckA=a % 3, ckB=a % 3, nops=n)))
+        out.append(("core", dict(kind="seq", hookA=a, hookB=a, ckA=a % 3, ckB=a % 3, nops=5)))
     for opt in ("vfoo,typeguard.typechecked", "vfoo, vbar.baz ,beartype.beartype", "vfoobar,vfo,typeguard.typechecked",
                 "vfoo", ""):
         out.append(("core", dict(kind="pytest", option=opt)))
